@@ -329,7 +329,7 @@ def run_unit(unit, work, tier='quick'):
         rc, out, err, _ = sh(gi, log=log, timeout=300)
         if rc != 0:
             raise Undecided('goto-instrument failed: ' + (err or out)[-1200:])
-        timeout = unit.get('timeout_thorough', max(1200, 3 * unit.get('timeout', 300))) if tier == 'thorough' else unit.get('timeout', 300)
+        timeout = unit.get('timeout_thorough', max(2400, 4 * unit.get('timeout', 300))) if tier == 'thorough' else unit.get('timeout', 300)
         if unit.get('frame_only'):
             # the unconstrained harness makes every index assertion fail: no traces (they dominate the run time), no standard checks
             base = ['cbmc', os.path.join(d, 'b.gb'), '--no-malloc-may-fail', '--no-standard-checks', '--json-ui']
